@@ -16,6 +16,7 @@ func propC10(r *Report, tier string) {
 	ruleVisitTypestate(r, "K1-startdoc-visit-enddoc")
 	ruleFacetBuilderSiblings(r, "K12-facet-builder-protocol")
 	ruleVisitorForwardsBoth(r, "K5-visitor-forwards-both")
+	ruleRegistriesUpdatedTogether(r, "K14-registries-updated-together", "search.(*FacetsBuilder).Add", "FacetsBuilder", []string{"facetNames", "facets", "facetsByField"})
 	r.Floor("K5-prepare-before-store", 3)
 	r.Floor("K8-facet-fields-needed-once", 2)
 	r.Floor("K1-startdoc-visit-enddoc", 3)
